@@ -2,8 +2,8 @@
    Theorem statements only, each closed by [exact]; proofs live in
    Proofs/Match{Recipients,Semantics,History,Tokenize,Parse}.v.  Model:
    Match/{Rule,Matcher,Bus}.v; specification: Spec/MatchSpec.v. *)
-From DV Require Import Lib.Base Match.Rule Match.Matcher Match.Bus Spec.MatchSpec
-  Proofs.MatchRecipients Proofs.MatchSemantics Proofs.MatchHistory Proofs.MatchTokenize Proofs.MatchParse.
+From DV Require Import Lib.Base Match.Rule Match.Matcher Match.Bus Match.Index Spec.MatchSpec
+  Proofs.MatchRecipients Proofs.MatchSemantics Proofs.MatchHistory Proofs.MatchTokenize Proofs.MatchParse Proofs.MatchIndex Proofs.MatchEqual.
 Local Open Scope N_scope.
 
 (* witnesses (ASCII) *)
@@ -229,6 +229,54 @@ Theorem C07_parse_refuted_unique_name :
 Proof. split; vm_compute; [discriminate | reflexivity]. Qed.
 Print Assumptions C07_parse_refuted_unique_name.
 
+(* ===== 6. the indexed matchmaker (pools by message type, hash by interface, gc of empty entries) =============== *)
+(* event by event the world built on the indexed structure answers what the flat world answers and stays in the
+   representation relation (each indexed list = the pool of the flat list in the same order; nothing else stored) *)
+Theorem C07_index_step : forall limit (iw : iworld) (w : world) e,
+  wrel imm mm repr iw w -> res_rel imm mm repr (istep limit iw e) (step limit w e).
+Proof. exact istep_refines. Qed.
+Print Assumptions C07_index_step.
+
+(* for every history from the empty bus the two worlds produce the same outputs *)
+Theorem C07_index_history : forall limit es,
+  run (istep limit) iworld_new es = run (step limit) (mkWorld [] [] []) es.
+Proof. exact index_history. Qed.
+Print Assumptions C07_index_history.
+
+(* in any state the indexed matchmaker can reach, the pool-based lookup returns nobody twice and exactly the
+   connections for which SOME stored rule, whatever its pool, matches according to the specification *)
+Theorem C07_index_recipients : forall limit im mk ns s a m l,
+  ireachable limit im mk -> iget_recipients ns im s a m = Some l ->
+  NoDup l /\
+  forall x, In x l <-> a <> Some x /\ exists r, In r (all_rules im) /\ r_owner r = x /\ spec_matches ns (abs_rule r) s a m = true.
+Proof. exact index_recipients. Qed.
+Print Assumptions C07_index_recipients.
+
+(* ===== 7. RemoveMatch compares rules, not strings ================================================================ *)
+Theorem C07_abs_injective : forall a b,
+  canonb (r_args a) = true -> canonb (r_args b) = true -> srule_eqb (abs_rule a) (abs_rule b) = true -> a = b.
+Proof. exact abs_rule_injective. Qed.
+Print Assumptions C07_abs_injective.
+
+Theorem C07_rule_equal_spec : forall c1 s1 c2 s2 r1 r2,
+  parse_rule c1 s1 = POk r1 -> parse_rule c2 s2 = POk r2 ->
+  rule_equal r1 r2 = srule_eqb (abs_rule r1) (abs_rule r2).
+Proof. exact rule_equal_is_spec_equal. Qed.
+Print Assumptions C07_rule_equal_spec.
+
+Theorem C07_remove_match_spec : forall limit m c text r,
+  reachable limit m -> parse_rule c text = POk r ->
+  (snd (handle_remove_match m c text) = RepOk <-> exists x, In x m /\ srule_eqb (abs_rule x) (abs_rule r) = true) /\
+  (snd (handle_remove_match m c text) = RepNotFound <-> forall x, In x m -> srule_eqb (abs_rule x) (abs_rule r) = false).
+Proof. exact remove_match_spec. Qed.
+Print Assumptions C07_remove_match_spec.
+
+(* ===== 8. name ownership: rules are not touched by owner changes, names are resolved when a message is dispatched == *)
+Theorem C07_owner_change_keeps_rules : forall limit (w w' : world) e o,
+  names_only e = true -> step limit w e = Some (w', o) -> w_mm w' = w_mm w.
+Proof. exact names_events_keep_rules. Qed.
+Print Assumptions C07_owner_change_keeps_rules.
+
 (* ===== non-vacuity =================================================================================================== *)
 Example ex_parse_ok : match parse_rule 1 T_good with POk r => rule_ok r | _ => False end.
 Proof.
@@ -253,6 +301,31 @@ Example ex_fds_skip :
   dispatch [] (fst (handle_add_match 512 true (fst (handle_add_match 512 true [] 1 T_good)) 2 T_good)) [2; 9] 9
            (M_sig [AStr [47;97;47;98]; AOther]) 1 = Some (RDelivered [2]).
 Proof. vm_compute. reflexivity. Qed.
+(* two spellings of one rule are rule_equal; the indexed structure collects the emptied interface entry *)
+Definition T_sp1 : bytes := [105;110;116;101;114;102;97;99;101;61;39;97;46;98;39;44;97;114;103;48;61;120;92;39;121].      (* interface='a.b',arg0=x\'y *)
+Definition T_sp2 : bytes := [97;114;103;48;61;39;120;39;92;39;39;121;39;44;32;105;110;116;101;114;102;97;99;101;32;61;97;46;98].      (* arg0='x'\''y', interface =a.b *)
+Example ex_spellings : match parse_rule 1 T_sp1, parse_rule 1 T_sp2 with POk a, POk b => rule_equal a b = true | _, _ => False end.
+Proof. vm_compute. reflexivity. Qed.
+Example ex_index_gc :
+  let im1 := fst (ihandle_add_match 512 true imm_new 1 T_sp1) in
+  let im2 := fst (ihandle_remove_match im1 1 T_sp2) in
+  (exists l, iget im1 0 (Some [97;46;98]) = Some l /\ length l = 1%nat) /\ iget im2 0 (Some [97;46;98]) = None /\ im2 = imm_new.
+Proof. vm_compute. split; [eexists; split; reflexivity | split; reflexivity]. Qed.
+(* sender='w.a' held by connection 3; 1 owns w.a with 2 queued; after 1 releases the name, 2 is the sender that matches *)
+Definition T_sender_wa : bytes := [115;101;110;100;101;114;61;39;119;46;97;39].  (* sender='w.a' *)
+Example ex_owner_change :
+  let wa := [119;46;97] in
+  let w0 := mkWorld (fst (handle_add_match 512 true [] 3 T_sender_wa)) [([58;49], 1); ([58;50], 2); ([58;51], 3); (wa, 1); (wa, 2)] [] in
+  step 512 w0 (EvSend 1 (M_sig []) 0) = Some (w0, ORouting (RDelivered [3])) /\
+  step 512 w0 (EvSend 2 (M_sig []) 0) = Some (w0, ORouting (RDelivered [])) /\
+  match step 512 w0 (EvRelease 1 wa) with
+  | Some (w1, OOwn 1 _) => w_mm w1 = w_mm w0 /\
+                           step 512 w1 (EvSend 2 (M_sig []) 0) = Some (w1, ORouting (RDelivered [3])) /\
+                           step 512 w1 (EvSend 1 (M_sig []) 0) = Some (w1, ORouting (RDelivered []))
+  | _ => False
+  end.
+Proof. vm_compute. repeat split. Qed.
+
 Example ex_tokenize_hyp : no_nul T_good /\ bs_sensitive SItemStart T_good = false /\ snd (spec_tokens T_good) = SEndOk /\
   (length (fst (spec_tokens T_good)) < MAX_RULE_TOKENS)%nat /\ forallb item_in_scope (fst (spec_tokens T_good)) = true.
 Proof.
